@@ -55,7 +55,7 @@ type Case struct {
 	Lenient bool `json:"lenient,omitempty"`
 	// PlainCtx: the context the statements outside a global transaction are run with: "" = context.Background(),
 	// "seata-no-xid" = a context initialised for seata that carries no xid (NotSupported / Supports scopes),
-	// "unbound" = one whose xid was unbound again (a context reused after its global transaction)
+	// "unbound" = one whose xid was unbound again (a context reused after its global transaction), "xid-copy-only" = one that only remembers an xid copy
 	PlainCtx string `json:"plain_ctx,omitempty"`
 }
 
@@ -275,6 +275,10 @@ func execute(c Case, db *sql.DB, proxied bool, names []string) *runOut {
 			pc = tm.InitSeataContext(bg)
 			tm.SetXID(pc, "10.0.0.1:8091:99")
 			tm.UnbindXid(pc)
+		case "xid-copy-only":
+			// the remembered copy of an xid (tm.SetXIDCopy) does not make a context a global transaction
+			pc = tm.InitSeataContext(bg)
+			tm.SetXIDCopy(pc, "10.0.0.1:8091:99")
 		}
 	}
 	var tx *sql.Tx
@@ -700,7 +704,7 @@ func prop(driver string, contexts []string) func(rt *rapid.T) {
 			}
 		}
 		if c.Context != "global" {
-			c.PlainCtx = rapid.SampledFrom([]string{"", "", "seata-no-xid", "unbound"}).Draw(rt, "plainCtx")
+			c.PlainCtx = rapid.SampledFrom([]string{"", "", "seata-no-xid", "unbound", "xid-copy-only"}).Draw(rt, "plainCtx")
 		}
 		nt := rapid.IntRange(1, 2).Draw(rt, "nTables")
 		for i := 0; i < nt; i++ {
